@@ -1,6 +1,6 @@
 (* Property C18 -- theorems only. *)
 From Coq Require Import List String Bool ZArith.
-From RG.Load Require Import Macro.
+From RG.Load Require Import Macro MacroEnv.
 From RGW Require Import Gen_Macro Inst_Macro.
 Import ListNotations.
 Local Open Scope string_scope.
@@ -18,6 +18,30 @@ Theorem C18_copy_rejected_or_equal :
   forall fuel e, consistent path_ok e -> gen_convert fuel (strip e) = None \/ gen_convert fuel (strip e) = gen_convert fuel e.
 Proof. exact (strip_rejected_or_equal path_ok str_args). Qed.
 Print Assumptions C18_copy_rejected_or_equal.
+
+(* helpers in their scope: for every table of helpers (any number, calling each other), every matcher name and every filter
+   expression, the conversion with helpers fails -- Load returns an error -- or there is the hand-inlined expression (every helper
+   call replaced by the body with the arguments substituted, repeatedly) and the result is exactly the conversion of that.
+   [env_ok] / [nc]: a call go/types folds to a constant is not a helper call (names: helper and parameter names);
+   [consistent]: what go/types guarantees about the constants of the inlined expression. *)
+Theorem C18_helpers_rejected_or_inlined :
+  forall mname en names fuel e, env_ok en names -> nc names e ->
+  gen_convertE mname en fuel e = None \/
+  exists e', gen_inline mname en fuel e = Some e' /\ (consistent path_ok e' -> gen_convert fuel e' = gen_convertE mname en fuel e).
+Proof. intros mname en names fuel e. exact (convertE_rejected_or_inlined path_ok str_args path_early mname en names fuel e). Qed.
+Print Assumptions C18_helpers_rejected_or_inlined.
+
+(* without helpers in scope the conversion is the plain one *)
+Theorem C18_no_helpers_plain : forall mname fuel e, gen_convertE mname [] fuel e = gen_convert fuel e.
+Proof. exact (convertE_nil path_ok str_args path_early). Qed.
+Print Assumptions C18_no_helpers_plain.
+
+(* group_scope: with the reset where the regenerated convertRuleGroup has it, every group of a file converts as if it were alone
+   in the file -- the helpers of the groups before it are out of scope, whatever they are called *)
+Theorem C18_group_scope :
+  forall fuel st gs, gen_conv_groups fuel gen_reset_per_group st gs = map (conv_group_alone path_ok str_args path_early fuel) gs.
+Proof. intros fuel st gs. rewrite reset_per_group. exact (group_scope path_ok str_args path_early fuel st gs). Qed.
+Print Assumptions C18_group_scope.
 
 (* const_expr_transparent: outside helper bodies only the constant go/types computed matters, not its spelling *)
 Theorem C18_const_expr_transparent :
@@ -52,3 +76,20 @@ Definition ex_body2 := EBinary None "=="
 Example ex_rejected : gen_convert 10 (expand ex_args ex_body2) = None /\
   gen_convert 10 (subst ex_args ex_body2) = Some (FBin "==" (FOp "Type.Size" "x" [] []) (FInt 8)).
 Proof. vm_compute. split; reflexivity. Qed.
+
+(* two groups define a helper of the same name with different bodies: each group gets its own; a nested helper *)
+Definition ex_f1 := mkMacro "f" ["v"] (ESel None (EIdent None "v") "Pure").
+Definition ex_f2 := mkMacro "f" ["v"; "n"] (EBinary None "==" (ESel None (ESel None (EIdent None "v") "Type") "Size") (EIdent None "n")).
+Definition ex_g2 := mkMacro "g" ["w"] (EBinary None "||" (ECall None (EIdent None "f") [EIdent None "w"; ELit (Some (CInt 8)) LInt (Some (CInt 8))])
+                                                  (ESel None (EIdent None "w") "Const")).
+Definition ex_file := [mkGroup "m" [GDef ex_f1; GRule (ECall None (EIdent None "f") [ex_mx])];
+                       mkGroup "m" [GDef ex_f2; GDef ex_g2; GRule (ECall None (EIdent None "g") [ex_mx])]].
+Example ex_groups : gen_conv_groups 20 gen_reset_per_group [] ex_file =
+  [[Some (FOp "Pure" "x" [] [])];
+   [Some (FBin "||" (FBin "==" (FOp "Type.Size" "x" [] []) (FInt 8)) (FOp "Const" "x" [] []))]] /\ file_verdict ex_file = 1.
+Proof. vm_compute. split; reflexivity. Qed.
+Example ex_env_ok : env_ok [ex_f2; ex_g2] ["f"; "g"; "v"; "n"; "w"].
+Proof.
+  unfold env_ok. repeat (apply Forall_cons || apply Forall_nil); (split; [|split]); cbn; try (intuition congruence).
+  all: intros x Hx; cbn in Hx; cbn; intuition.
+Qed.
